@@ -45,8 +45,8 @@ theorem startDo_dying {P : St → Prop} (s : St) (m : Meth) (skip : Bool) (tp : 
     · simp only [h3, if_true]
       exact hE _ _ (by simpa [Dying] using h2)
 
-theorem describeStart_dying {P : St → Prop} (s : St) (fs k : List Fr) (retK : St → Val → St)
-    (hd : Dying s) (hR : ∀ s' v, Dying s' → P (retK s' v)) : P (describeStart s fs k retK) := by
+theorem describeStart_dying {P : St → Prop} (s : St) (rd : Nat) (fs k : List Fr) (retK : St → Val → St)
+    (hd : Dying s) (hR : ∀ s' v, Dying s' → P (retK s' v)) : P (describeStart s rd fs k retK) := by
   unfold describeStart
   split
   · split
@@ -71,8 +71,14 @@ theorem setupStart_dying {P : St → Prop} (c : Cfg) (s : St) (a : SetupArgs) (k
         | exact startDo_dying _ _ _ _ _ _ _ _ hd1 (fun s' e h => hR _ _ h) (fun hf => by cases hf)
   · exact hR _ _ hd
 
+theorem closeConn_dying (s : St) (hd : Dying s) : Dying (closeConn s) := by
+  unfold closeConn
+  simp only []
+  split <;> simpa [Dying, emit] using hd
+
 theorem clearSession_dying (s : St) (hd : Dying s) : Dying (clearSession s) := by
-  simpa [Dying, clearSession, closeConn] using hd
+  have h := closeConn_dying s hd
+  simpa [Dying, clearSession] using h
 
 theorem afterReset_dying {P : St → Prop} (s : St) (n : AfterReset) (k : List Fr)
     (retK : St → Val → St) (hd : Dying s) (hR : ∀ s' v, Dying s' → P (retK s' v)) :
@@ -80,13 +86,13 @@ theorem afterReset_dying {P : St → Prop} (s : St) (n : AfterReset) (k : List F
   have hc := clearSession_dying s hd
   unfold afterReset
   cases n with
-  | redirect loc =>
+  | redirect loc n =>
     cases loc <;> simp only []
     all_goals first
       | exact hR _ _ hc
-      | exact describeStart_dying _ _ _ _ (by simpa [Dying] using hc) hR
+      | exact describeStart_dying _ _ _ _ _ (by simpa [Dying] using hc) hR
   | switchTcp a =>
-    exact describeStart_dying _ _ _ _ (by simpa [Dying] using hc) hR
+    exact describeStart_dying _ _ _ _ _ (by simpa [Dying] using hc) hR
 
 theorem resetStart_dying {P : St → Prop} (c : Cfg) (s : St) (n : AfterReset) (k : List Fr)
     (retK : St → Val → St) (hd : Dying s) (hR : ∀ s' v, Dying s' → P (retK s' v)) :
@@ -111,9 +117,9 @@ theorem setupResp_dying {P : St → Prop} (c : Cfg) (s : St) (a : SetupArgs) (p 
   · exact setupStart_dying _ _ _ _ _ (by simpa [Dying] using hd) hR
   · exact resetStart_dying _ _ _ _ _ (by simpa [Dying] using hd) hR
 
-theorem describeResp_dying {P : St → Prop} (c : Cfg) (s : St) (r : Resp) (k : List Fr)
+theorem describeResp_dying {P : St → Prop} (c : Cfg) (s : St) (rd : Nat) (r : Resp) (k : List Fr)
     (retK : St → Val → St) (hd : Dying s) (hR : ∀ s' v, Dying s' → P (retK s' v)) :
-    P (describeResp c s r k retK) := by
+    P (describeResp c s rd r k retK) := by
   unfold describeResp
   repeat' split
   all_goals first
@@ -163,11 +169,11 @@ theorem frameRet_dying {P : St → Prop} (c : Cfg) (f : Fr) (k : List Fr) (retK 
          all_goals first
            | exact hR _ _ hd
            | exact hR _ _ (by simpa [Dying] using hd))
-  | describeK =>
+  | describeK rd =>
     cases v <;> simp only []
     all_goals first
       | exact hR _ _ hd
-      | exact describeResp_dying _ _ _ _ _ hd hR
+      | exact describeResp_dying _ _ _ _ _ _ hd hR
   | announceK =>
     cases v <;> simp only []
     all_goals first
@@ -213,8 +219,8 @@ theorem frameRet_dying {P : St → Prop} (c : Cfg) (f : Fr) (k : List Fr) (retK 
 
 /-! ### the same for error values only: under `Dying` every helper hands an ERROR to its continuation -/
 
-theorem describeStart_dyingE {P : St → Prop} (s : St) (fs k : List Fr) (retK : St → Val → St)
-    (hd : Dying s) (hR : ∀ s' e, Dying s' → P (retK s' (.err e))) : P (describeStart s fs k retK) := by
+theorem describeStart_dyingE {P : St → Prop} (s : St) (rd : Nat) (fs k : List Fr) (retK : St → Val → St)
+    (hd : Dying s) (hR : ∀ s' e, Dying s' → P (retK s' (.err e))) : P (describeStart s rd fs k retK) := by
   unfold describeStart
   split
   · split
@@ -229,13 +235,13 @@ theorem afterReset_dyingE {P : St → Prop} (s : St) (n : AfterReset) (k : List 
   have hc := clearSession_dying s hd
   unfold afterReset
   cases n with
-  | redirect loc =>
+  | redirect loc n =>
     cases loc <;> simp only []
     all_goals first
       | exact hR _ _ hc
-      | exact describeStart_dyingE _ _ _ _ (by simpa [Dying] using hc) hR
+      | exact describeStart_dyingE _ _ _ _ _ (by simpa [Dying] using hc) hR
   | switchTcp a =>
-    exact describeStart_dyingE _ _ _ _ (by simpa [Dying] using hc) hR
+    exact describeStart_dyingE _ _ _ _ _ (by simpa [Dying] using hc) hR
 
 theorem frameRet_dyingE {P : St → Prop} (c : Cfg) (f : Fr) (k : List Fr) (retK : St → Val → St)
     (s : St) (e : Err) (hd : Dying s)
